@@ -455,6 +455,38 @@ def execute(run, prop, shard):
                 run.case(shape=(rid, prname, be), nontrivial=True)
                 run.counters["other_database_cases"] += 1
                 report(run, label, {"TypeError"}, outs)
+    # ---- the other side of the "duplicate names through a join suffix" rule: when the automatic suffix can be made
+    #      unique (by a counter) the join is accepted and all names are pairwise distinct - on every backend, and the
+    #      exported frame has exactly these names
+    L = {"handle": "L0", "name": "l", "schema": [["id", "Int64"], ["a_t", "Int64"], ["k_d", "Int64"]], "rows": [[1, 10, 7], [2, 20, 8], [3, None, 9]]}
+    R = {"handle": "R0", "name": "t2", "schema": [["rid", "Int64"], ["a", "Int64"], ["a_t", "Int64"]], "rows": [[1, 5, 50], [2, 6, None], [4, 7, 70]]}
+    for be in ("pol", "sqlite"):
+        backend = made[be][0]
+        with M.SQL.setup():
+            lt = backend.make_table(L)
+            rt = backend.make_table(R)
+        C = pdt.C
+        ra = rt >> pdt.alias("t")  # right table named `t`: automatic suffix `_t`
+        shapes = {
+            "suffix_target_taken_left_and_right": lambda: lt >> pdt.join(ra >> pdt.rename({"rid": "id"}), "id", "inner"),
+            "suffix_target_taken:mutate_both": lambda: (lt >> pdt.mutate(a=lt.a_t)) >> pdt.join(ra >> pdt.mutate(id=ra.rid), lt.id == ra.rid, "left"),
+            "double_self_join": lambda: (tabs[be][0] >> pdt.select(C.k, C.g) >> pdt.join(tabs[be][0] >> pdt.select(C.k, C.g) >> pdt.alias("t"), "k", "inner"))
+            >> pdt.join((tabs[be][0] >> pdt.select(C.k, C.g) >> pdt.alias("t")) >> pdt.join(tabs[be][0] >> pdt.select(C.k, C.g) >> pdt.alias("t"), "k", "inner") >> pdt.alias("t"), "k", "left"),
+        }
+        for sn, f in shapes.items():
+            run.case(shape=("join_auto_suffix", sn, be), nontrivial=True)
+            try:
+                j = f()
+                names = j >> pdt.columns()
+                df = frame_of(j, be)
+                if len(set(names)) != len(names):
+                    run.finding(Finding("accept:" + be, be, None, f"join_auto_suffix:{sn}: join accepted with duplicate names {names}", extra={"feature": None}), None)
+                elif list(df.columns) != names:
+                    run.finding(Finding("accept:" + be, be, None, f"join_auto_suffix:{sn}: columns() {names} != exported {list(df.columns)}", extra={"feature": None}), None)
+                else:
+                    run.counters["join_auto_suffix_shapes_ok"] += 1
+            except Exception as e:  # noqa: BLE001
+                run.finding(Finding("excls:" + be, be, None, f"join_auto_suffix:{sn}: raised {type(e).__name__}: {str(e)[:160]} (a unique suffix exists)", exc=type(e).__name__, extra={"feature": None}), None)
     # summarize() without arguments and without grouping
     for be in BES:
         t = tabs[be][0]
